@@ -49,7 +49,7 @@ def parallel_tlc(cx, spec, envs, prefix, heap="3g", maxpar=None, timeout=6000):
     return results
 
 
-MISMATCH_RE = re.compile(r'^<<"MISMATCH", (-?\d+), "([a-z]+)", (\d+), "(.*)">>$')
+MISMATCH_RE = re.compile(r'^<<"MISMATCH", (-?\d+), "([a-z0-9]+)", (\d+), "(.*)">>$')
 
 
 def mismatches_of(results):
@@ -300,6 +300,10 @@ def self_test(cx, shard, tree):
     take(lambda r: r["fs"][20]["t"], lambda c: c["fs"][20]["t"].append(["<OUT>", "b"]))
     take(lambda r: not r["rp"][1]["ok"], lambda c: c["fs"][19].update({"t": [["tmp", "b"]], "e": False}))
     take(lambda r: r["fs"][18]["t"] == [["tmp", "b"]], lambda c: c["fs"][18].update({"t": [["tmp", "..a"]]}))
+    # (7) a rename across mounts that was served, (8) a same-mount rename served with a wrong second location
+    take(lambda r: any(not o["ok"] for o in r["vos2"]),
+         lambda c: [o for o in c["vos2"] if not o["ok"]][0].update({"ok": True, "m": [], "r1": ["zk"], "r2": ["x"]}))
+    take(lambda r: any(o["ok"] for o in r["vos2"]), lambda c: [o for o in c["vos2"] if o["ok"]][0]["r2"].append("x"))
     p = cx.path("selftest.ndjson")
     vlib.write_ndjson(p, bad)
     flagged = set(m[0] for m in judge(cx, [p], tree, "selftest"))
